@@ -221,6 +221,7 @@ type Engine struct {
 	lemmasUsed    map[string]bool
 	leafClass     []leafClass
 	curProp       string
+	atCallHit     map[string]bool
 	l             *Loaded
 	ifaceUsed     map[string]bool
 	returnsSeen   int
